@@ -11,7 +11,7 @@ import (
 )
 
 // c20Op runs one library operation on structures derived from the shared, read-only input.
-func c20Op(op string, in []byte, key []byte) []byte {
+func c20Op(op string, in []byte, key []byte, c20IV []byte) []byte {
 	var out bytes.Buffer
 	switch op {
 	case "decodeSR+info+encode":
@@ -60,6 +60,25 @@ func c20Op(op string, in []byte, key []byte) []byte {
 			}
 		}
 		_ = f.Encode(&out)
+	case "encrypt-cenc", "encrypt-cbcs":
+		// protect and encrypt structures decoded from the shared bytes, with the shared key and IV
+		f, err := DecodeFile(bytes.NewReader(in))
+		if err != nil || f.Init == nil {
+			return nil
+		}
+		scheme := op[len("encrypt-"):]
+		ipd, err := InitProtect(f.Init, key, c20IV, scheme, c06KID, nil)
+		if err != nil {
+			return nil
+		}
+		for _, seg := range f.Segments {
+			for _, fr := range seg.Fragments {
+				if EncryptFragment(fr, key, c20IV, ipd) != nil {
+					return nil
+				}
+			}
+		}
+		_ = f.Encode(&out)
 	case "box":
 		b, err := DecodeBoxSR(0, bits.NewFixedSliceReader(in))
 		if err != nil {
@@ -78,6 +97,19 @@ func c20Input(kind string) ([]byte, []byte) {
 	case "clear":
 		in, _ := fileSkeleton("seg2f")
 		return in, key
+	case "aclear", "aclear8":
+		// a clear audio init + two fragments with symbolic payload (input of the encrypt operations)
+		init := CreateEmptyInit()
+		init.AddEmptyTrack(48000, "audio", "und")
+		_ = init.Moov.Trak.SetAACDescriptor(2, 48000)
+		var b bytes.Buffer
+		_ = init.Encode(&b)
+		for k := 0; k < 2; k++ {
+			frag, _ := CreateFragment(uint32(k+1), 1)
+			frag.AddFullSample(FullSample{Sample: Sample{Flags: SyncSampleFlags, Dur: 1024, Size: 40}, DecodeTime: uint64(1024 * k), Data: vfy.Bytes("audio", 40)})
+			_ = frag.Encode(&b)
+		}
+		return b.Bytes(), key
 	case "mfra":
 		in, _ := fileSkeleton("mfra")
 		return in, key
@@ -111,13 +143,23 @@ func c20Input(kind string) ([]byte, []byte) {
 func VerifC20(kind string, op string) {
 	in, key := c20Input(kind)
 	shared := append([]byte{}, in...)
-	alone := c20Op(op, append([]byte{}, in...), key)
+	ivLen := 16
+	if kind == "aclear8" {
+		ivLen = 8
+	}
+	// the IV handed to the encrypt operations is, like the input bytes and the key, shared
+	// read-only data of the goroutines
+	iv0 := vfy.Bytes("iv", ivLen)
+	alone := c20Op(op, append([]byte{}, in...), append([]byte{}, key...), append([]byte{}, iv0...))
+	c20IV := append([]byte{}, iv0...)
 	vfy.SharedInput(shared)
+	vfy.SharedInput(c20IV)
+	vfy.SharedInput(key)
 	// known findings: in-place decryption of a DecodeFileSR result writes the shared input
 	vfy.Known("C20-cenc-decrypt-writes-shared-input", kind == "cenc" && op == "decodeSR+decrypt")
 	vfy.Known("C20-cbcs-decrypt-writes-shared-input", kind == "cbcs" && op == "decodeSR+decrypt")
 	if vfy.Symbolic() {
-		got := c20Op(op, shared, key)
+		got := c20Op(op, shared, key, c20IV)
 		vfy.Assert(bytes.Equal(got, alone), "result on the shared input equals the result of a run alone")
 		vfy.Assert(bytes.Equal(shared, in), "the shared input is unchanged")
 		vfy.Cover("write set checked")
@@ -129,12 +171,13 @@ func VerifC20(kind string, op string) {
 		wg.Add(1)
 		go func(g int) {
 			defer wg.Done()
-			res[g] = c20Op(op, shared, key)
+			res[g] = c20Op(op, shared, key, c20IV)
 		}(g)
 	}
 	wg.Wait()
 	vfy.Assert(bytes.Equal(res[0], alone) && bytes.Equal(res[1], alone), "each goroutine gets the result of a run alone")
 	vfy.Assert(bytes.Equal(shared, in), "the shared input is unchanged")
+	vfy.Assert(bytes.Equal(c20IV, iv0), "the shared IV is unchanged")
 	vfy.Cover("write set checked")
 }
 
@@ -149,18 +192,18 @@ func VerifC20Box(boxType string, n int) {
 	if vfy.Symbolic() {
 		// the operation is sequential deterministic code: with an empty write set on everything
 		// another goroutine can reach, its result cannot depend on what the other goroutine does
-		_ = c20Op("box", shared, nil)
+		_ = c20Op("box", shared, nil, nil)
 		vfy.Cover("write set checked")
 		return
 	}
-	alone := c20Op("box", append([]byte{}, in...), nil)
+	alone := c20Op("box", append([]byte{}, in...), nil, nil)
 	var wg sync.WaitGroup
 	res := make([][]byte, 2)
 	for g := 0; g < 2; g++ {
 		wg.Add(1)
 		go func(g int) {
 			defer wg.Done()
-			res[g] = c20Op("box", shared, nil)
+			res[g] = c20Op("box", shared, nil, nil)
 		}(g)
 	}
 	wg.Wait()
